@@ -256,6 +256,7 @@ def run_case(case):
         # a quarter of the runs (half of the regularised ones) with do_logging=False, as most users call it: the values that go
         # into the log line must not be the values the exit tests use. Reference and derived runs alike.
         cfg["args"]["do_logging"] = False
+        gen.without_logging(cfg)
         res["stats"]["runs_without_logging"] = 1
     case["cfg"] = cfg
     ref = one_run(cfg, res, typ)
